@@ -116,16 +116,27 @@ def exchangeInner (lt : α → α → Bool) (f l i : Nat) : Nat → List α → 
       exchangeInner lt f l i n a (j + 1)
     else exchangeInner lt f l i n a (j + 1)
 
-/-- `for (i = first; i < prev(last); ++i) for (j = next(i); j < last; ++j) ...`.
-    (`i < prev(last)` runs `last - 1 - first` times; on an empty range the comparison is false.) -/
+/-- `etl::prev(it)` on an iterator of the range the algorithm was given: the result must again be an iterator of
+    `[first, last]`.  Decrementing `first` is not (for a pointer to the start of an object forming `first - 1` is
+    undefined behaviour), so it is `.error .oob` — a truncated `Nat` subtraction would hide it. -/
+def prevR (f l i : Nat) : Except Err Nat := if f < i ∧ i ≤ l then .ok (i - 1) else .error .oob
+
+/-- `for (i = first; i < prev(last); ++i) for (j = next(i); j < last; ++j) ...` : `prev(last) - first` iterations -/
 def exchangeOuter (lt : α → α → Bool) (f l : Nat) : Nat → List α → Nat → Except Err (List α)
   | 0, a, _ => .ok a
   | n + 1, a, i => do
     let a ← exchangeInner lt f l i (l - (i + 1)) a (i + 1)
     exchangeOuter lt f l n a (i + 1)
 
+/-- exchange_sort (as repaired by `fix: exchange_sort returns early on an empty range …`):
+    `if (first == last) return;` then the loops, whose bound `etl::prev(last)` is formed once per test
+    (checked: `prevR`).  Without the early return the model is `exchangeSortUnguarded`
+    (TetlProofs/C06/Regress.lean), which is `.error .oob` on every empty range. -/
 def exchangeSort (lt : α → α → Bool) (a : List α) (f l : Nat) : Except Err (List α) :=
-  exchangeOuter lt f l (l - 1 - f) a f
+  if f == l then .ok a
+  else do
+    let pl ← prevR f l l
+    exchangeOuter lt f l (pl - f) a f
 
 /-! ### merge / inplace_merge / merge_sort -/
 /-- merge: output stream; fuel = total number of elements + 1 -/
